@@ -30,3 +30,4 @@ PROP = {
     "assumptions": STD_ASSUME + ["the error clause is judged only for requests whose depth budget is at least the a-priori bound simpson_depth_needed (others are counted as outside: no implementation can meet 4 epsilon there)",
                                  "integrands are evaluated in double (Horner, std::exp, std::pow); their rounding is covered by the 64 eps int|f| term"],
 }
+PROP["level_text"] += ' Also: nested integrations whose inner range is empty at an outer end point, integrands level at both limits and the midpoint, intervals narrow relative to their position, Find_Epsilon on the same limits before the observed call.'
